@@ -1099,13 +1099,17 @@ namespace chaiscript {
         }
 
         void process_hex() {
-          if (!hex_matches.empty()) {
+          const bool has_digits = !hex_matches.empty();
+          if (has_digits) {
             auto val = stoll(hex_matches, nullptr, 16);
             match.push_back(char_type(val));
           }
           hex_matches.clear();
           is_escaped = false;
           is_hex = false;
+          if (!has_digits) {
+            throw exception::eval_error("Invalid hexadecimal escape sequence: no digits after \\x");
+          }
         }
 
         void process_octal() {
